@@ -240,6 +240,8 @@ def partitions(tier):
 
     def conv(name, shapes, faults, tech='106A', brs=0, lri=0, lrt=0, did=None,
              nad=None, **kw):
+        if tech == '212F' and brs == 0:
+            brs = 1         # the initiator polls 212F only when brs > 0
         params = dict(tech=tech, brs=brs, lri=lri, lrt=lrt, did=did, nad=nad,
                       shapes=shapes, faults=faults)
         params.update(kw)
